@@ -80,8 +80,11 @@ def _conc_task(job):
         stubs.quiet()
         mod = _load(job["module"])
         fn = mod.HARNESSES[job["harness"]]
+        # environment determinism only (like PYTHONHASHSEED): the replay gets the same object identifiers as the symbolic
+        # run, so that set-iteration-order dependent behaviour of the real code (known finding R1) reproduces
+        stubs.deterministic_ids()
         res = core.run_concrete(fn, job["params"], job["inputs"], rtol=job.get("rtol", 1e-9),
-                                atol=job.get("atol", 1e-12))
+                                atol=job.get("atol", 0.0))
         res["job"] = job
         res["error"] = None
         return res
